@@ -247,6 +247,48 @@ def run(res):
                 res.violation("%s --drop-hdr10plus: %d SEI NAL(s) of the output still hold an HDR10+ message (SEI placement %s)" % (rp["cmd"], left, placement), rp)
             if not drop and left != in_hdr:
                 res.violation("%s without the option: %d of %d HDR10+ SEI NALs left" % (rp["cmd"], left, in_hdr), rp)
+    # ---- inject-rpu: every combination of --no-add-aud and the input's own AUDs / RPUs under --drop-hdr10plus on one
+    # stream (own PRNG stream: the cases above stay what they were)
+    r3 = C.rng(res.seed, "c18inj")
+    for k in range(5 if res.tier == "quick" else 60):
+        n = r3.choice([1, 2, 3, 5])
+        bl_frames, _el = C06.gen_pair(r3, n, n)
+        placement = r3.choice(["before-slice", "first-nal", "after-aud"])
+        if placement == "first-nal":
+            bl_frames = [[x for x in f if x.type != 35] for f in bl_frames]
+        for f in bl_frames:
+            msgs = gen_sei(r3, r3.random() < 0.9)
+            pos = 0 if placement == "first-nal" else (1 if f and f[0].type == 35 else 0) if placement == "after-aud" else next((i for i, x in enumerate(f) if x.type <= 21), len(f))
+            f.insert(pos, S.SNal(H.sei_nal(msgs)))
+            nsei += 1
+        bl = S.flatten(bl_frames)
+        rpus = [r3.choice(pool8) for _ in range(n)]
+        rpuf = w.write("new.bin", b"".join(b"\x00\x00\x00\x01" + R.escape(x) for x in rpus))
+        for keep_rpu in (0, 1):
+            src = bl if keep_rpu else [x for x in bl if x.type != 62]
+            sdata = S.stream_bytes(r3, src, sc="four", tz_prob=0)
+            inp2, outh = w.write("bl.hevc", sdata), w.path("inj.hevc")
+            for noaud in (0, 1):
+                if os.path.exists(outh):
+                    os.remove(outh)
+                ec, txt = cli.run(["--drop-hdr10plus", "inject-rpu", "-i", inp2, "--rpu-in", rpuf, "-o", outh] + (["--no-add-aud"] if noaud else []), w.dir, chunk_size=r3.choice([None, 10000]))
+                nrun += 1
+                ninj += 1
+                rp = {"cmd": "inject-rpu", "no_add_aud": noaud, "drop": 1, "placement": placement, "stream_hex": sdata.hex(), "rpus": [x.hex() for x in rpus]}
+                m1 = C.model().run(["inject noaud=%d,annexb=0,drop=1 %s %s" % (noaud, ";".join(x.model() for x in src), ",".join((b"\x7c\x01" + R.escape(x)).hex() for x in rpus))])[0]
+                if ec != "0" or not m1.startswith("ok"):
+                    if (ec == "0") != m1.startswith("ok"):
+                        res.violation("inject-rpu --drop-hdr10plus exits %s, the model says %s" % (ec, m1[:30]), rp)
+                    continue
+                outn = [x.rstrip(b"\x00") for x in R.split_annexb(w.read("inj.hevc") or b"")]
+                exp = [C.unhexs(x.split(":")[1]).rstrip(b"\x00") for x in m1[3:].split(",")] if m1 != "ok -" else []
+                if outn != exp:
+                    kk = next((i for i, (a, b) in enumerate(zip(outn, exp)) if a != b), min(len(outn), len(exp)))
+                    res.violation("inject-rpu --drop-hdr10plus%s: output differs from the model at NAL %d (%d written, %d expected; SEI placement %s)" % (" --no-add-aud" if noaud else "", kk, len(outn), len(exp), placement), rp)
+                    continue
+                left = sum(1 for x in outn if (x[0] >> 1) & 0x3F == 39 and any(is_hdr10plus(mm) for mm in walk_sei(x)))
+                if left:
+                    res.violation("inject-rpu --drop-hdr10plus%s: %d SEI NAL(s) of the output still hold an HDR10+ message (SEI placement %s)" % (" --no-add-aud" if noaud else "", left, placement), rp)
     res.coverage.update({
         "mux_runs": nmux, "inject_runs": ninj,
         "evaluations": len(nl) + 2 * nrun,
